@@ -163,8 +163,55 @@ def mixed_order_cases(rng, tier):
 _gen_cases_c12 = gen_cases
 
 
+def hostile_bytes_cases(rng, tier):
+    """not a transport fault but its protocol-level sibling: the CLIENT's bytes turn into garbage (a record header with an unknown
+    version) in the middle of a stream - while the handler reads (errors swallowed or propagated), or behind the point where the handler
+    stopped reading, so that Request::close meets it while skipping to the record boundary.  The task must end the connection without
+    panicking or spinning; everything else is decided by the correspondence with the model (error kind InvalidData at the handler)"""
+    for _ in range(40 if tier == "quick" else 2000):
+        rid = rng.choice([1, 9])
+        B = rng.choice([64, 256, 8192])
+        role = rng.choice([1, 1, 3])
+        body = [rng.randrange(256) for _ in range(rng.choice([5, 40, 100]))]
+        bad = [rng.choice([0, 2, 7, 255]), STDIN, rid >> 8, rid & 255, 0, 3, 0, 0, 1, 2, 3]
+        w = flat(minimal_preamble(rid, role, flags=rng.choice([0, 1]), pairs=rand_pairs(rng, 1, 8))) + record(STDIN, rid, body, rng.choice([0, 3])) + bad + record(STDIN, rid, [], 0)
+        how = rng.choice(["read", "read?", "readall", "none", "part", "fill"])
+        if how == "read":
+            h = [("read", 16)] * rng.randrange(3, 12) + [("ret", 0, 0)]
+        elif how == "read?":
+            h = [("read?", rng.choice([8, 64]))] * rng.randrange(3, 12) + [("ret", 0, 0)]
+        elif how == "readall":
+            h = [("readall",), ("ret", 0, 1)]
+        elif how == "none":
+            h = [("ret", 0, 2)]
+        elif how == "part":
+            h = [("read", rng.choice([1, 3]))] + [("ret", 0, 3)]          # stops inside the record: close skips ahead into the garbage
+        else:
+            h = [("fill", 10 ** 6)] * 3 + [("ret", 0, 4)]
+        if role == 3 and rng.random() < 0.5:
+            h = [("writeable",)] + h
+        rs = rng.choice([[], [10 ** 6] * 20, C07.io_script(rng, 80, "r")])
+        yield conn_case(B, 1, [(0, 0, w)], [h], rs, C07.io_script(rng, 40, "w"), rng.choice([0, 1])), ["hostile-bytes"]
+    # a preamble the configured buffer cannot hold (a pair beyond the documented bound), a BeginRequest with the reserved id 0 or a wrong
+    # body length: parse_request ends the connection with the parser's error, no handler runs
+    for _ in range(20 if tier == "quick" else 600):
+        B = rng.choice([24, 32, 64])
+        kind = rng.choice(["stuck", "null-id", "bad-len"])
+        if kind == "stuck":
+            pairs = [([65] * rng.randrange(B, B + 30), [66] * rng.randrange(0, 30))]
+            w = flat(minimal_preamble(1, 1, pairs=pairs))
+        elif kind == "null-id":
+            w = flat([begin(0, 1, 1)]) + flat(minimal_preamble(1, 1)[1:])
+        else:
+            w = record(BEGIN, 1, [0, 1, 1, 0, 0, 0, 0, 0, 0][:rng.choice([7, 9])], 0) + flat(minimal_preamble(1, 1)[1:])
+        w = [2, 9, 9, 9, 9, 9, 9, 9][:0] + w      # (the marker the oracle looks for is a foreign version byte; add one behind the preamble)
+        w = w + [rng.choice([0, 2, 255]), STDIN, 0, 1, 0, 0, 0, 0]
+        yield conn_case(B, 1, [(0, 0, w)], [[("readall",), ("ret", 0, 0)]], rng.choice([[], C07.io_script(rng, 60, "r")]), [], rng.choice([0, 1])), ["hostile-bytes", "hostile-preamble"]
+
+
 def gen_cases(rng, tier):
     yield from _gen_cases_c12(rng, tier)
+    yield from hostile_bytes_cases(rng, tier)
     yield from close_readahead_fault_cases(rng, tier)
     yield from swallowed_flush_error_cases(rng, tier)
     yield from mixed_order_cases(rng, tier)
@@ -175,7 +222,7 @@ def nontrivial(line, tags):
 
 
 def min_classes(tier):
-    return {"eof": 2000, "read-error": 300, "write-fault": 300, "write-fault-aborted-kind": 60, "close-readahead-fault": 16, "swallowed-flush-error-then-write": 12, "mixed-order": 400}
+    return {"eof": 2000, "read-error": 300, "write-fault": 300, "write-fault-aborted-kind": 60, "close-readahead-fault": 16, "swallowed-flush-error-then-write": 12, "mixed-order": 400, "hostile-bytes": 40}
 
 
 def outcome(line, out):
@@ -206,6 +253,17 @@ def signature(line, impl_line):
     return ""
 
 
+def _header_offsets(w):
+    """offsets of the record headers of a wire image, as far as it can be walked with the length fields (stops at garbage)"""
+    k, out = 0, []
+    while k + 8 <= len(w):
+        out.append(k)
+        if w[k] != 1:
+            break
+        k += 8 + w[k + 4] * 256 + w[k + 5] + w[k + 6]
+    return out
+
+
 def oracle(line, impl_line):
     o = parse_out(impl_line)
     if o is None or o[0] == [18446744073710440504]:
@@ -215,6 +273,8 @@ def oracle(line, impl_line):
     cnt = o[1]
     if head[0] != 0:
         return "the connection task did not terminate after the transport fault (outcome %s)" % head
+    if len(segs) == 1 and any(segs[0][2][k] != 1 and segs[0][2][k + 1] == STDIN for k in _header_offsets(segs[0][2])):
+        return True        # class hostile-bytes: terminated without panicking; the rest is the correspondence with the model
     # complete preambles among the bytes the client sent
     wire = [b for s in segs for b in s[2]]
     recs, tail = parse_records(wire)
